@@ -290,8 +290,6 @@ class MailboxData(MailboxDataInterface[Message]):
         return dest_uid
 
     async def get(self, uid: int, cached_msg: CachedMessage) -> Message:
-        if uid < 1 or uid > self._max_uid:
-            raise IndexError(uid)
         async with self.messages_lock.read_lock():
             msg = self._messages.get(uid)
         if msg is None:
